@@ -18,6 +18,11 @@ func plan(tier string, seed int64) []sup.Batch {
 	bs = append(bs, sup.Chunk("trigger", "trigger", nTrig, (nTrig+7)/8, 1, map[string]any{"ops": ops})...)
 	bs = append(bs, sup.Chunk("fault", "fault", nFault, (nFault+7)/8, 1, map[string]any{"ops": 14})...)
 	bs = append(bs, sup.Batch{Name: "witness", Kind: "witness", From: 0, To: len(cachemon.Witnesses()), Procs: 1})
+	nConc := 24
+	if tier == "thorough" {
+		nConc = 480
+	}
+	bs = append(bs, sup.Chunk("conc", "conc", nConc, nConc/4, 16, nil)...)
 	return bs
 }
 
@@ -25,7 +30,7 @@ func main() {
 	sup.Main(sup.Prop{
 		ID:    "C06",
 		Level: "fault_enumeration",
-		Rule:  "generated cache histories (initial remote tree of 0–6 nodes; writes, stream writes, mkdirs, removes, copies, reads, one or several Commits; path spellings; child views) run on fscache.Cache over a memory or disk remote and on the tree model; (a) the whole remote tree is compared with its last committed state after EVERY cache operation; (b) after every successful Commit the remote tree must equal the model tree (the successful operations applied directly); (c) fault: the remote is wrapped in a fault-injecting decorator, a dry run counts the remote calls of the final Commit and EVERY position is failed once – Commit must report the failure, and a later fault-free Commit must succeed and leave remote = model. clean stratum (no operation matching a listed finding's trigger): every divergence is a violation; trigger stratum: unrestricted, a divergence must satisfy a listed finding's class predicate; witness: the findings' minimal histories replayed verbatim. distinct = distinct operation sequences; non-trivial = ≥1 successful mutation",
+		Rule:  "generated cache histories (initial remote tree of 0–6 nodes; writes, stream writes, mkdirs, removes, copies, reads, one or several Commits; path spellings; child views) run on fscache.Cache over a memory or disk remote and on the tree model; (a) the whole remote tree is compared with its last committed state after EVERY cache operation; (b) after every successful Commit the remote tree must equal the model tree (the successful operations applied directly); (c) fault: the remote is wrapped in a fault-injecting decorator, a dry run counts the remote calls of the final Commit and EVERY position is failed once – Commit must report the failure, and a later fault-free Commit must succeed and leave remote = model. clean stratum (no operation matching a listed finding's trigger): every divergence is a violation; trigger stratum: unrestricted, a divergence must satisfy a listed finding's class predicate; witness: the findings' minimal histories replayed verbatim; conc: 2–16 independent caches (each with its own memory remote) writing, copying inside the cache and committing at the same time – after every successful Commit the remote files equal what was written through that cache. distinct = distinct operation sequences; non-trivial = ≥1 successful mutation",
 		Assumptions: []string{
 			"the expected tree is defined through the operations the cache reported as successful; a history in which the cache accepts an operation the tree model rejects is ambiguous and excluded",
 			"fault enumeration is done on clean-stratum histories",
@@ -44,6 +49,10 @@ func main() {
 						cachemon.RunWitness(r, wt, cachemon.Options{CheckRemote: true, RemoteKind: "mem"})
 					})
 				}
+				return
+			}
+			if b.Kind == "conc" {
+				runConc(c, b)
 				return
 			}
 			nops := b.P("ops", 25)
